@@ -88,3 +88,57 @@ Theorem C10_key_order_outside_dom_refuted :
   exists a b, compare a b = Lt /\ idx_value_key [99%N] [97%N] a = idx_value_key [99%N] [97%N] b.
 Proof. exists (VInt 9007199254740992), (VInt 9007199254740993). vm_compute. split; reflexivity. Qed.
 Print Assumptions C10_key_order_outside_dom_refuted.
+
+(* ---- the MAXIMAL key domain (Proofs/KeyDomainProofs.v): the key laws hold for every integer whose conversion to float64 is exact
+   (2^60, 2^63, 2^53+2, ... not only |z| <= 2^53), and for no other: an int64 outside it shares its key with a different integer. This is the
+   exact extent of the known finding K-float-key. (The 1024 largest uint64 round up to 2^64, which is no uint64: they collide only with one
+   another.) ---- *)
+From Clover Require Import KeyDomainProofs.
+Theorem C10_key_order_maximal_domain : forall c f a b ida idb,
+  key_dom_x a = true -> key_dom_x b = true ->
+  lex (idx_value_key c f a ++ ida) (idx_value_key c f b ++ idb)
+  = cmp_then (compare a b) (lex ida idb).
+Proof. exact idx_key_law_x. Qed.
+Print Assumptions C10_key_order_maximal_domain.
+
+Theorem C10_key_eq_maximal_domain : forall c f a b,
+  key_dom_x a = true -> key_dom_x b = true -> compare a b = Eq ->
+  idx_value_key c f a = idx_value_key c f b.
+Proof. exact idx_key_eq_x. Qed.
+Print Assumptions C10_key_eq_maximal_domain.
+
+Theorem C10_key_prefix_free_maximal_domain : forall c f a b r,
+  key_dom_x a = true -> key_dom_x b = true ->
+  idx_value_key c f a ++ r = idx_value_key c f b -> compare a b = Eq.
+Proof. exact idx_key_prefix_free_x. Qed.
+Print Assumptions C10_key_prefix_free_maximal_domain.
+
+Theorem C10_key_dom_within_maximal_domain : forall v, wf_value v = true -> key_dom v = true -> key_dom_x v = true.
+Proof. exact key_dom_key_dom_x. Qed.
+Print Assumptions C10_key_dom_within_maximal_domain.
+
+Theorem C10_exact_int_examples :
+  exact_int (2 ^ 60) = true /\ exact_int (2 ^ 63) = true /\ exact_int (- (2 ^ 62)) = true /\
+  exact_int (2 ^ 53 + 2) = true /\ exact_int (2 ^ 53 + 1) = false /\ exact_int (2 ^ 64 - 1) = false.
+Proof. exact exact_int_examples. Qed.
+Print Assumptions C10_exact_int_examples.
+
+Theorem C10_inexact_int_collides : forall z, int64_ok z = true -> exact_int z = false ->
+  exists b, key_dom_x b = true /\
+    idx_value_key [99%N] [97%N] (VInt z) = idx_value_key [99%N] [97%N] b /\
+    compare (VInt z) b <> Eq.
+Proof. exact inexact_int_collides. Qed.
+Print Assumptions C10_inexact_int_collides.
+
+Theorem C10_inexact_uint_collides : forall z, uint64_ok z = true -> exact_int z = false ->
+  z < two64 - 1024 ->
+  exists b, key_dom_x b = true /\
+    idx_value_key [99%N] [97%N] (VUint z) = idx_value_key [99%N] [97%N] b /\
+    compare (VUint z) b <> Eq.
+Proof. exact inexact_uint_collides. Qed.
+Print Assumptions C10_inexact_uint_collides.
+
+Theorem C10_int_domain_characterised : forall c f z, int64_ok z = true ->
+  (key_dom_x (VInt z) = true <-> key_faithful c f (VInt z)).
+Proof. exact int_domain_characterised. Qed.
+Print Assumptions C10_int_domain_characterised.
